@@ -154,13 +154,19 @@ CLAIMED["C31"] = {
   "design_ref": "DESIGN.md section 4 C31",
 }
 
+CLAIMED["C26"] = {
+  "text": "Structural necessary conditions of forward/inverse consistency: the force sums on the two sides of the equation of motion (forward's qfrc_smooth, inverse's qfrc_inverse) use the same fields with opposite unit coefficients, qfrc_constraint enters the inverse sum with -1, the M*qacc term is the buffer support.mul_m filled from Data.qacc, no input force is consumed by the inverse sum; inverse() runs the same position/velocity stages as forward() in the same order and evaluates constraint forces with constraint-update kernels the forward solver also uses; with INVDISCRETE the discrete-time qacc is restored on every path. Equality up to solver residual is NOT decided (numeric).",
+  "note": STATIC_NOTE,
+  "technique": "sibling agreement: affine normal forms (signed term sets) of two kernels' stored values + stage-call sequence on host traces + save/restore pairing (R-SIGN.9, R-SEQ.3, R-PAIR)",
+  "design_ref": "DESIGN.md section 4 C26",
+}
+
 NOT_APPLICABLE = {
   "C06": "optimality of an iterative float solve is a runtime quantity; no structural necessary condition beyond what C24/C25 decide",
   "C18": "equivalence of broadphases depends on geometric conservativeness of numeric filters and sort/scan arithmetic; a sibling text-diff of the NXN/SAP kernels would alarm on harmless refactors",
   "C20": "orthonormality, signed distance and midpoint are numeric results of closed-form/GJK code; no static argument bounds them",
   "C21": "SPD-ness and Mx=b residuals are numeric; layout sentinels of the factor are covered structurally under C02",
   "C22": "derivative identities between Jacobians and positions are numeric; index discipline of the same kernels is decided under C05",
-  "C26": "forward/inverse equality up to solver residual is numeric",
   "C27": "analytic-derivative correctness is numeric (finite-difference comparison is testing, not static analysis)",
   "C28": "correctness of a flood fill over a runtime graph; exhaustive small-graph enumeration would be model checking/testing, a different family",
   "C29": "temporal sleep/wake behaviour over histories and thread interleavings of _wake_tree; R-RACE lists those kernels as an unverified idiom but cannot decide that every interleaving yields MuJoCo's wake set",
